@@ -269,7 +269,7 @@ fn hex(b: &[u8]) -> String {
 }
 
 pub fn run(ctx: &mut Ctx) {
-    let nsubjects = ctx.n(6, 40);
+    let nsubjects = ctx.n(6, 120);
     let seed = ctx.seed;
     let prior_e = prior_engine();
     let preqs = prior_reqs();
